@@ -3157,3 +3157,117 @@ func init() {
 			return out
 		}})
 }
+
+// NTTLAST — the last layer of a lazy forward NTT reduces.
+//
+// The lazy forward transforms alternate layers that subtract 4q when a value exceeds it (`butterfly`) with layers that
+// do not (`x+V, x+twoQ-V`); values are below 6q after a reducing layer and below 8q after a non-reducing one. The
+// documented output range [0, 6q-2] therefore requires the LAST layer (t == 1) to be a reducing one whatever the
+// parity of log2(N): the standard transform always uses `butterfly` there, the conjugate-invariant one chose by the
+// alternation and returned values up to 7.7q for odd log2(N) — `Decrypt` of a non-NTT ciphertext then overflowed
+// uint64 for 61-bit primes.
+//
+// Rule: in every function of package ring whose name starts with `ntt` and contains `Lazy` (forward lazy transforms),
+// inside the loop over the layers, the block that handles the last layer — the final `else` of the chain
+// `if t >= 8 … else if t == 4 … else if t == 2 … else`, or the loop body when there is no such chain — contains no
+// non-reducing butterfly, i.e. no assignment whose right-hand side mentions `twoQ` outside a call of `butterfly`.
+func scanNTTLast(c *core.Ctx) []ob {
+	var out []ob
+	n := 0
+	c.FuncDecls(func(pk *packages.Package, file *ast.File, fd *ast.FuncDecl) {
+		if fd.Body == nil || fd.Recv != nil || !(c.IsFixture || core.ShortPkg(pk.PkgPath) == "ring") {
+			return
+		}
+		name := fd.Name.Name
+		if !strings.HasPrefix(name, "ntt") || !strings.Contains(name, "Lazy") {
+			return
+		}
+		fkey := core.FuncKey(pk, fd)
+		// the loop over the layers: the last for statement at the top level of the body whose init defines m
+		var loop *ast.ForStmt
+		for _, st := range fd.Body.List {
+			if fs, ok := st.(*ast.ForStmt); ok {
+				if as, ok := fs.Init.(*ast.AssignStmt); ok && len(as.Lhs) == 1 {
+					if id, ok := as.Lhs[0].(*ast.Ident); ok && id.Name == "m" {
+						loop = fs
+					}
+				}
+			}
+		}
+		if loop == nil {
+			return // dispatchers (nttCoreLazy) have no layer loop
+		}
+		n++
+		var last ast.Node = loop.Body
+		for _, st := range loop.Body.List {
+			is, ok := st.(*ast.IfStmt)
+			if !ok {
+				continue
+			}
+			// chain on t
+			mentionsT := false
+			ast.Inspect(is.Cond, func(y ast.Node) bool {
+				if id, ok := y.(*ast.Ident); ok && id.Name == "t" {
+					mentionsT = true
+				}
+				return true
+			})
+			if !mentionsT {
+				continue
+			}
+			cur := is
+			for {
+				switch e := cur.Else.(type) {
+				case *ast.IfStmt:
+					cur = e
+					continue
+				case *ast.BlockStmt:
+					last = e
+				default:
+					last = cur.Body
+				}
+				break
+			}
+		}
+		var bad ast.Node
+		ast.Inspect(last, func(y ast.Node) bool {
+			as, ok := y.(*ast.AssignStmt)
+			if !ok || bad != nil {
+				return bad == nil
+			}
+			for _, r := range as.Rhs {
+				ast.Inspect(r, func(z ast.Node) bool {
+					if call, ok := z.(*ast.CallExpr); ok {
+						if id, ok := unparen(call.Fun).(*ast.Ident); ok && id.Name == "butterfly" {
+							return false
+						}
+					}
+					if id, ok := z.(*ast.Ident); ok && id.Name == "twoQ" {
+						bad = as
+					}
+					return true
+				})
+			}
+			return true
+		})
+		key := "NTTLAST:" + fkey
+		if bad == nil {
+			out = append(out, okOb("NTTLAST", key, c.Rel(fd.Pos()), "the block of the last layer contains reducing butterflies only", true))
+		} else {
+			out = append(out, violOb("NTTLAST", key, c.Rel(bad.Pos()), fmt.Sprintf("%s has a non-reducing butterfly (%s) in the block of its last layer: when the alternation ends on it the output reaches 8q instead of the documented [0, 6q-2], and sums of lazy outputs overflow uint64 for 61-bit primes", fkey, exprString(bad.(*ast.AssignStmt).Rhs[0]))))
+		}
+	})
+	c.Stats["nttlast_fns"] = n
+	return out
+}
+
+func init() {
+	core.Register(&core.Rule{Name: "NTTLAST", Props: []string{"C01", "C19"},
+		Doc: "in every lazy forward NTT of package ring (ntt*Lazy*), the block handling the last layer (final else of the chain on t, or the loop body) contains no non-reducing butterfly (no assignment mentioning twoQ outside a butterfly call): the documented output range [0, 6q-2] holds for both parities of log2(N)",
+		Run: func(c *core.Ctx) []ob {
+			out := scanNTTLast(c)
+			out = append(out, control(c, "NTTLAST", scanNTTLast, "lvfixture.nttToyLazy")...)
+			out = append(out, core.Floor("NTTLAST", nil, "lazy forward transforms with a layer loop", c.Stats["nttlast_fns"], 4)...)
+			return out
+		}})
+}
